@@ -27,7 +27,7 @@ if [ -x $OUT/${L}_demo/run.sh ]; then
 else rc_mut=-1; fi
 res "build/vet rc=$rc_build suite=$suite demo_clean_rc=$rc_clean demo_changed_rc=$rc_mut"
 # run the checks against the changed tree
-mkdir -p "$D/v/bin" "$D/v/evidence" "$D/v/replays"; cp -r /verif/harness "$D/v/harness"; cp /verif/bin/vcheck "$D/v/bin/"; cp /verif/known-findings.txt "$D/v/"
+mkdir -p "$D/v/bin" "$D/v/evidence" "$D/v/replays"; cp -r ${HARNESS_SRC:-/verif/harness} "$D/v/harness"; cp /verif/bin/vcheck "$D/v/bin/"; cp /verif/known-findings.txt "$D/v/"
 sed -i "s#=> /repo#=> $D/wt#" "$D/v/harness/go.mod"
 caught=""
 for c in $CHECKS; do
